@@ -209,6 +209,7 @@ func (s *SourceControl) runLaterIfActive(f func()) error {
 		return fmt.Errorf("no source is active")
 	}
 	for {
+		verifPoint("runlater:select")
 		select {
 		case s.queuedRequests <- f:
 			return <-s.queuedResults
